@@ -86,11 +86,19 @@ func (g *GettyRemoting) sendAsync(session getty.Session, msg message.RpcMessage,
 		log.Warn("sendAsyncRequestWithResponse nothing, caused by null channel.")
 		return nil, fmt.Errorf("session is closed")
 	}
-	resp := message.NewMessageFuture(msg)
-	g.futures.Store(msg.ID, resp)
+	// only a message somebody waits an answer for gets a future: responses carry
+	// the coordinator's id and heart beats are answered without a waiter, and
+	// neither may shadow the future of a pending request with the same id
+	var resp *message.MessageFuture
+	if callback != nil {
+		resp = message.NewMessageFuture(msg)
+		g.futures.Store(msg.ID, resp)
+	}
 	_, _, err = session.WritePkg(msg, time.Duration(0))
 	if err != nil {
-		g.futures.Delete(msg.ID)
+		if callback != nil {
+			g.futures.Delete(msg.ID)
+		}
 		log.Errorf("send message: %#v, session: %s", msg, session.Stat())
 		return nil, err
 	}
